@@ -111,13 +111,13 @@ NoSchemaExamples(doc, v) ==
       /\ Len(v.at) >= 2 /\ ~Has(AtPtr(doc, SubSeq(v.at, 1, Len(v.at) - 2)), "schema")
 
 Missed(doc, sites, v, opts, noopt) ==
-   (* a place the walk never reaches explains everything below it *)
-   IF UnderOperationCallbacks(v) THEN "operation_callbacks_not_validated"
-   ELSE IF UnderNestedServers(v) THEN "path_item_and_operation_servers_not_validated"
-   ELSE IF UnderEncoding(v) THEN "encoding_header_errors_swallowed"
+   (* a place the walk never reaches explains everything below it (the headers of an encoding: still open) *)
+   IF UnderEncoding(v) THEN "encoding_header_errors_swallowed"
    ELSE IF ContextLost(doc, v, noopt) THEN "example_request_response_context_lost_without_options"
    ELSE IF ContextLeak(doc, sites, v, noopt) THEN "example_judged_in_mode_of_earlier_request_body_or_response"
    ELSE IF NoSchemaExamples(doc, v) THEN "examples_not_validated_without_schema"
+   ELSE IF UnderOperationCallbacks(v) THEN "operation_callbacks_not_validated"
+   ELSE IF UnderNestedServers(v) THEN "path_item_and_operation_servers_not_validated"
    ELSE IF HeaderUnchecked(v) THEN "header_extra_fields_and_examples_not_validated"
    ELSE IF DiscriminatorXml(v) THEN "schema_discriminator_xml_not_validated"
    ELSE IF NestedRefSibling(v) THEN "nested_schema_ref_siblings_not_checked"
